@@ -161,11 +161,39 @@ def all_inputs(case):
     return outs
 
 
+_SCAN = {}
+_INSPECTED = {}
+
+
+def scan_input(case):
+    """the source file the materialiser will generate for this case, classified line by line with the library's
+    own regular expressions, and the line of the `lambda` (what `inspect.findsource` reports for the condition)"""
+    if case.get("dom") == "hashseed" or case.get("named"):
+        return None
+    key = id(case)
+    hit = _SCAN.get(key)
+    if hit is not None and hit[0] is case:
+        return hit[1]
+    src = implexpr.full_source([case])
+    lines = src.splitlines(keepends=True)
+    params = ["self"] if case.get("kind") == "invariant" else case.get("params", ARGS)
+    needle = "lambda %s:" % ", ".join(params)
+    idx = [i for i, ln in enumerate(lines) if needle in ln]
+    out = None
+    if len(idx) == 1:
+        out = {"dom": "srcscan", "kinds": implexpr.classify_lines(lines), "lineno": idx[0], "_lines": lines}
+    if len(_SCAN) > 50000:
+        _SCAN.clear()
+    _SCAN[key] = (case, out)
+    return out
+
+
 def driver_inputs(case):
     if case.get("dom") == "hashseed":
         return []
     li, _objs = lean_input(case)
-    return ([li] if li is not None else []) + all_inputs(case)
+    si = scan_input(case)
+    return ([li] if li is not None else []) + all_inputs(case) + ([dict((k, v) for k, v in si.items() if k != "_lines")] if si else [])
 
 
 def split_mos(mos):
@@ -175,6 +203,23 @@ def split_mos(mos):
 
 
 def model_view(case, mos):
+    view = _expr_view(case, mos)
+    scan = [m for m in (mos or []) if "scan" in m]
+    si = scan_input(case)
+    if scan and si:
+        import textwrap
+        r = scan[0]["scan"]
+        if isinstance(r, list):
+            text = textwrap.dedent("".join(si["_lines"][r[0]:r[1]]))
+        else:
+            text = r
+        view = dict(view or {})
+        view["scan_text"] = text
+        view["is_model"] = True
+    return view
+
+
+def _expr_view(case, mos):
     mo, _alls = split_mos(mos)
     if mo is None:
         return None
@@ -209,15 +254,34 @@ def project(case, obs):
     if case.get("dom") == "hashseed":
         return "untied"
     li, _objs = lean_input(case)
-    if li is None or obs is None:
+    si = scan_input(case)
+    if obs is None or (li is None and si is None):
         return "untied"
-    if "visit_out" in obs:                  # the model's view
-        py = obs["py"]
-        return {"out": obs["out"], "entries": obs["entries"], "recomputed": [list(p) for p in obs["recomputed"]],
-                "python": py if py[0] == "exc" else ["ok", py[1], py[2]]}
+    out = {}
+    if obs.get("is_model") or "visit_out" in obs:                  # the model's view
+        # (the engine projects the implementation's observation of a case first: whether the library inspected the
+        # decorator at all - it does so only when it has to render a lambda condition - is remembered from there)
+        if si is not None and _INSPECTED.get(id(case), True):
+            out["scan_text"] = obs.get("scan_text")
+        if li is not None and "visit_out" in obs:
+            py = obs["py"]
+            out.update({"out": obs["out"], "entries": obs["entries"], "recomputed": [list(p) for p in obs["recomputed"]],
+                        "python": py if py[0] == "exc" else ["ok", py[1], py[2]]})
+        return out
     # the implementation's observation
     if obs.get("define") != ["ok"]:
         return {"define": obs.get("define")}
+    if si is not None:
+        scans = obs.get("scans") or []
+        if len(_INSPECTED) > 100000:
+            _INSPECTED.clear()
+        _INSPECTED[id(case)] = bool(scans)
+        if scans:
+            out["scan_text"] = scans[0]["result"]
+        if scans and (scans[0]["lineno"] != si["lineno"] or scans[0]["kinds"] != si["kinds"]):
+            out["scan_text"] = ["harness: the generated file differs from the predicted one", scans[0]["lineno"], si["lineno"]]
+    if li is None:
+        return out
     inner = inner_positions(case["expr"])
     ev = [[e["pos"], e["rendered"] if e["representable"] else "<fn>"] for e in obs["evaluated"]
           if e["pos"] is not None and e["pos"] not in inner]
@@ -229,9 +293,10 @@ def project(case, obs):
     for r in obs.get("recomputed", []):
         if r["pos"] is not None:
             rec[r["pos"]] = r["rendered"] if r["type"] not in implexpr.UNREPRESENTABLE_TYPES and r["representable"] else "<fn>"
-    return {"out": obs["out"][0] if obs["out"][0] == "ViolationError" else "other",
-            "entries": [[norm(k), v] for k, v in obs.get("entries", [])],
-            "recomputed": [list(p) for p in sorted(rec.items())], "python": python}
+    out.update({"out": obs["out"][0] if obs["out"][0] == "ViolationError" else "other",
+                "entries": [[norm(k), v] for k, v in obs.get("entries", [])],
+                "recomputed": [list(p) for p in sorted(rec.items())], "python": python})
+    return out
 
 
 _INNER = {}
@@ -602,6 +667,8 @@ def stats(case, mos, io, dist):
     dist["tied_to_model:%s" % bool(_e)] += 1
     if _alls:
         dist["all_calls_decided_by_model"] += len(_alls)
+    if io.get("scans") and scan_input(case) is not None:
+        dist["decorator_extent_tied_to_model"] += 1
     if io.get("define") == ["ok"]:
         dist["out:" + io["out"][0]] += 1
         dist["value_lines:%d" % min(len(io.get("entries", [])), 12)] += 1
